@@ -10,7 +10,7 @@ ID = "C15"
 LEVEL = "fault_enumeration"
 BUDGET = {"quick": 55, "thorough": 900}
 QUICK_CASES = 2000  # generator items in the quick tier (fixed amount of work; BUDGET is then only a safety cap)
-FLOOR = {"quick": 600, "thorough": 3000}
+FLOOR = {"quick": 600, "thorough": 600}  # conclusive cases below which a run is inconclusive (the thorough tier is time-budgeted: same floor)
 TIMEOUT = 90
 REQUIRED_OBS = ["waits", "returns_checked", "returned_state", "returned_event", "returned_time", "returned_timeout", "returned_none", "condition_exceptions", "cancel_points_injected", "residue_comparisons", "mqtt_webhook_waits"]
 RULE = (
